@@ -39,7 +39,10 @@ def copy_before_mutate(ctx):
         # loop variables bound from <source>.items()/.values()
         shared_vars = {}
         for n in body_walk(f.node):
-            if isinstance(n, ast.For) and source in src(n.iter) and ('items()' in src(n.iter) or 'values()' in src(n.iter)):
+            it = src(n.iter) if isinstance(n, ast.For) else ''
+            if it.startswith('list(') and it.endswith(')'):
+                it = it[5:-1]
+            if isinstance(n, ast.For) and it in (f'{source}.items()', f'{source}.values()'):
                 tgt = n.target.elts[-1] if isinstance(n.target, ast.Tuple) else n.target
                 if isinstance(tgt, ast.Name):
                     shared_vars[tgt.id] = n
@@ -49,9 +52,12 @@ def copy_before_mutate(ctx):
         def transfer(node, state):
             a = node.ast
             if node.kind == 'for' and isinstance(a, ast.For):
+                bound = {x.id for x in ast.walk(a.target) if isinstance(x, ast.Name)}
                 for v, loop in shared_vars.items():
                     if loop is a:
                         state[v] = 'SHARED'
+                    elif v in bound:
+                        state[v] = 'OWNED'    # rebound from another collection (e.g. the per-instance copies)
             if isinstance(a, ast.Assign):
                 for t in a.targets:
                     if isinstance(t, ast.Name) and t.id in shared_vars:
@@ -107,6 +113,13 @@ def datatype_escape(ctx):
                     n += 1
                     ctx.analysed(f)
                     fresh = isinstance(v, ast.Call) and (call_attr(v) == 'copy' or (dotted(v.func) or '').endswith('Type') or dotted(v.func) in ('TupleOf', 'ArrayOf', 'StructOf'))
+                    for a in ancestors(s):
+                        if isinstance(a, ast.If) and isinstance(a.test, ast.BoolOp) and isinstance(a.test.op, ast.And):
+                            extra = [src(x) for x in a.test.values if src(x) not in ("'datatype' in self.propertyValues", 'self.hasDatatype()', 'datatype is not None')]
+                            ctx.check(not extra, f'{f.qualname}:copy of {t.attr} is unconditional', a,
+                                      'the copy depends only on the presence of the datatype',
+                                      f'the datatype is copied only when `{" and ".join(extra)}`: otherwise class and instances (or base and subclass) '
+                                      'share one datatype object - main-unit substitution or a property change on one instance changes the others', f)
                     ctx.check(fresh, f'{f.qualname}:store {src(t)}', s, 'a copy / fresh datatype is stored',
                               f'`{src(s)}` stores a datatype object that belongs to another accessible: base class and subclass (or class and '
                               'instance) share one datatype - a configured limit or unit of one instance changes the others', f)
